@@ -233,6 +233,14 @@ func RunReplay(t *testing.T, funcs map[string]func()) {
 		cur = &rf.Cases[i]
 		failures = nil
 		outcome := runOne(f)
+		// harnesses with goroutines: the schedule the engine found cannot be forced natively, so the case is
+		// repeated in this process (ZZVERIF_REPEAT) until a run fails
+		if n, _ := strconv.Atoi(os.Getenv("ZZVERIF_REPEAT")); n > 1 {
+			for r := 1; r < n && outcome == "PASS"; r++ {
+				failures = nil
+				outcome = runOne(f)
+			}
+		}
 		fmt.Printf("REPLAY-CASE %s %s\n", cur.ID, outcome)
 	}
 }
